@@ -114,6 +114,13 @@ make("C10-shape-not-updated-after-crop", L, ("""                    lines = line
                     shape = Segment.get_shape(lines)""", """                    lines = lines[: console.size.height]"""))
 make("C10-revert-shape-reset-live", L, ("            self._live_render._shape = None\n", ""))
 make("C10-revert-shape-reset-progress", P, ("            self._live_render._shape = None\n", ""))
+FLUSH = """                for stream in (sys.stdout, sys.stderr):
+                    if isinstance(stream, FileProxy):
+                        stream.flush()
+"""
+make("C10-revert-flush-at-stop-live", L, (FLUSH, ""))
+make("C10-revert-flush-at-stop-progress", P, (FLUSH, ""))
+make("C10-flush-at-stop-stdout-only", P, ("                for stream in (sys.stdout, sys.stderr):\n", "                for stream in (sys.stdout,):\n"))
 make("C10-revert-overflow-restore", L, ("""                finally:
                     self.vertical_overflow = vertical_overflow
 """, """                finally:
@@ -151,28 +158,16 @@ make("C11-check-buffer-nolock", C, ("""        with self._lock:
             if self._buffer_index == 0:"""))
 RECORD_BEFORE_LOCK = ("""        with self._lock:
             if self._buffer_index == 0:
-                if self.is_jupyter:  # pragma: no cover
-                    from .jupyter import display
-
-                    display(self._buffer)
-                    del self._buffer[:]
-                else:
-                    if self.record:
-                        with self._record_buffer_lock:
-                            self._record_buffer.extend(self._buffer[:])
-                    text""", """        if self.record and self._buffer_index == 0:
+                if self.is_jupyter:  # pragma: no cover""", """        if self.record and self._buffer_index == 0:
             with self._record_buffer_lock:
                 self._record_buffer.extend(self._buffer[:])
         with self._lock:
             if self._buffer_index == 0:
-                if self.is_jupyter:  # pragma: no cover
-                    from .jupyter import display
-
-                    display(self._buffer)
-                    del self._buffer[:]
-                else:
-                    text""")
-make("C11-record-before-lock", C, RECORD_BEFORE_LOCK)
+                if self.is_jupyter:  # pragma: no cover"""), ("""                        if self.record:
+                            with self._record_buffer_lock:
+                                self._record_buffer.extend(segments)
+""", "")
+make("C11-record-before-lock", C, *RECORD_BEFORE_LOCK)
 make("C11-shared-buffer", C, ("""    def _buffer(self) -> List[Segment]:
         \"\"\"Get a thread local buffer.\"\"\"
         return self._thread_locals.buffer""", """    def _buffer(self) -> List[Segment]:
@@ -182,17 +177,17 @@ make("C11-shared-buffer", C, ("""    def _buffer(self) -> List[Segment]:
         except AttributeError:
             self._shared_buffer: List[Segment] = []
             return self._shared_buffer"""))
-make("C11-capture-exit-before-render", C, ("""        render_result = self._render_buffer(self._buffer)
-        del self._buffer[:]
+make("C11-capture-exit-before-render", C, ("""        render_result = self._render_buffer(self._buffer[start:])
+        del self._buffer[start:]
         self._exit_buffer()
         return render_result""", """        self._exit_buffer()
-        render_result = self._render_buffer(self._buffer)
-        del self._buffer[:]
+        render_result = self._render_buffer(self._buffer[start:])
+        del self._buffer[start:]
         return render_result"""))
-make("C11-buffer-clear-after-write", C, ("""                    text = self._render_buffer(self._buffer[:])
+make("C11-buffer-clear-after-write", C, ("""                    text = self._render_buffer(segments)
                     del self._buffer[:]
-                    if text:""", """                    text = self._render_buffer(self._buffer[:])
-                    if text:"""))
+""", """                    text = self._render_buffer(segments)
+"""))
 make("C11-stop-lock-inversion", L, ("""        \"\"\"Stop live rendering display.\"\"\"
         with self._lock:""", """        \"\"\"Stop live rendering display.\"\"\"
         with self.console._lock, self._lock:"""))
@@ -207,10 +202,10 @@ make("C11-revert-refresh-thread-under-lock", P, ("""            refresh_thread =
             try:
                 if self.auto_refresh and refresh_thread is not None:
                     refresh_thread.stop()
-                self.refresh()""", """            try:
+                # print any partial""", """            try:
                 if self.auto_refresh and self._refresh_thread is not None:
                     self._refresh_thread.stop()
-                self.refresh()"""), ("""        if refresh_thread is not None:
+                # print any partial"""), ("""        if refresh_thread is not None:
             refresh_thread.join()""", """        if self._refresh_thread is not None:
             self._refresh_thread.join()
             self._refresh_thread = None"""))
@@ -228,10 +223,38 @@ make("C11-progress-start-check-outside-lock", P, ("""        with self._lock:
             # nothing of this display"""))
 
 # ---- C15 -------------------------------------------------------------------
-make("C15-revert-record-at-write", C, ("""                    if self.record:
+RECORD_BLOCK = """                        # record what the file has taken, and only that: not output the file
+                        # refused, and also output whose flush fails afterwards
+                        if self.record:
+                            with self._record_buffer_lock:
+                                self._record_buffer.extend(segments)
+"""
+make("C15-record-before-write", C, (RECORD_BLOCK, ""), ("""                    del self._buffer[:]
+                    try:
+""", """                    del self._buffer[:]
+                    if self.record:
                         with self._record_buffer_lock:
-                            self._record_buffer.extend(self._buffer[:])
-                    text = self._render_buffer(self._buffer[:])""", """                    text = self._render_buffer(self._buffer[:])"""),
+                            self._record_buffer.extend(segments)
+                    try:
+"""))
+make("C15-record-after-flush", C, (RECORD_BLOCK, ""), ("""                        if text:
+                            self.file.flush()
+""", """                        if text:
+                            self.file.flush()
+                        if self.record:
+                            with self._record_buffer_lock:
+                                self._record_buffer.extend(segments)
+"""))
+make("C15-revert-capture-start", C, ("""        start = capture_starts.pop() if capture_starts else 0
+""", """        start = 0
+"""))
+make("C15-capture-start-not-popped", C, ("""        start = capture_starts.pop() if capture_starts else 0
+""", """        start = capture_starts[-1] if capture_starts else 0
+"""))
+make("C15-revert-record-at-write", C, ("""                        if self.record:
+                            with self._record_buffer_lock:
+                                self._record_buffer.extend(segments)
+""", ""),
      ("""        legacy_windows = self.legacy_windows
         not_terminal = not self.is_terminal""", """        legacy_windows = self.legacy_windows
         if self.record:
@@ -270,15 +293,19 @@ make("C15-html-control-not-filtered", C, ("""                for text, style, _ 
                         rule = style.get_html_style(_theme)
                         if rule:
                             style_number"""))
-make("C15-capture-drops-first-segment", C, ("""        render_result = self._render_buffer(self._buffer)
-        del self._buffer[:]""", """        render_result = self._render_buffer(self._buffer[1:])
-        del self._buffer[:]"""))
+make("C15-capture-drops-first-segment", C, ("""        render_result = self._render_buffer(self._buffer[start:])
+        del self._buffer[start:]""", """        render_result = self._render_buffer(self._buffer[start + 1 :])
+        del self._buffer[start:]"""))
 make("C15-styled-export-no-color", C, ("""                    (style.render(text) if style else text)
                     for text, style, _ in self._record_buffer""", """                    (style.without_color.render(text) if style else text)
                     for text, style, _ in self._record_buffer"""))
-make("C15-record-before-lock", C, RECORD_BEFORE_LOCK)
+make("C15-record-before-lock", C, *RECORD_BEFORE_LOCK)
 
 # ---- C19 -------------------------------------------------------------------
+make("C19-revert-reset-keeps-link", A, ("""                        link = self.style.link
+                        self.style = _Style(link=link) if link else _Style.null()
+""", """                        self.style = _Style.null()
+"""))
 make("C19-revert-flush-verbatim", F, ("""            self.__console.print(
                 "".join(buffer), markup=False, emoji=False, highlight=False
             )""", """            self.__console.print("".join(buffer))"""))
